@@ -660,6 +660,17 @@ def run(rep: Any, tier: str, seed: int) -> None:
         nm = fname_of(u, c["k"], u["requests"][c["ri"]]["name"])
         if sum(1 for e in eff if nm in e["accepts"]) >= 2:
             rep.nontrivial((u["uid"], c["ri"], u["classes"], u["requests"][c["ri"]]))
+    link_app = link_drop = 0
+    for u in universes:
+        eff0 = effective(u, 0)
+        for r in u["requests"]:
+            if r["links"] is None:
+                continue
+            nm = fname_of(u, 0, r["name"])
+            for e_ in eff0:
+                if nm in e_["accepts"] and e_["idx"] != "none":
+                    link_app += 1
+                    link_drop += not any(col[:len(i)] == i for col in e_["idx"] for l in r["links"] for i in l)
     sizes: Dict[int, int] = {}
     depths: Dict[int, int] = {}
     for u in universes:
@@ -675,6 +686,7 @@ def run(rep: Any, tier: str, seed: int) -> None:
                     "requests_with_feature_framework": sum(1 for r in reqs if r["ffw"]),
                     "requests_with_feature_domain": sum(1 for r in reqs if r["fdom"]),
                     "requests_with_links": sum(1 for r in reqs if r["links"] is not None),
+                    "link_filter_applicable_class_request_pairs": link_app, "of_those_dropped_by_the_prefix_rule": link_drop,
                     "requests_with_simulated_unavailable_framework": sum(1 for r in reqs if r["unavailable"]),
                     "chosen_with_several_admissible_frameworks": len(tab_variety),
                     "of_those_seen_on_more_than_one_table_type": sum(1 for v in tab_variety.values() if len(v) > 1)})
